@@ -51,11 +51,17 @@ fn emit_choice(
             None
         };
 
-        if choice.has_choice_only_content
-            && !choice.has_start_content
-            && matches!(choice.body.as_slice(), [Node::Divert(_)])
-        {
-            branch_nodes.extend(tokenize_inline_content(&format!(" {selected_text}"))?);
+        // A divert written on the choice line itself follows the selected text directly
+        // (text, one space, divert, newline - inklecate behavior); a divert on its own
+        // line only starts after the line break that ends the selected text.
+        let inline_divert =
+            choice.body_divert_is_inline && matches!(choice.body.as_slice(), [Node::Divert(_)]);
+
+        if choice.has_choice_only_content && !choice.has_start_content && inline_divert {
+            branch_nodes.extend(tokenize_inline_content(&format!(
+                " {} ",
+                selected_text.trim_end()
+            ))?);
             branch_nodes.extend(choice.body.clone());
             branch_nodes.push(Node::Newline);
             body_already_emitted = true;
@@ -70,6 +76,9 @@ fn emit_choice(
             body_already_emitted = true;
         } else {
             branch_nodes.extend(tokenize_inline_content(selected_text)?);
+            if inline_divert && !selected_text.ends_with(char::is_whitespace) {
+                branch_nodes.push(Node::Text(" ".to_owned()));
+            }
         }
         branch_nodes.extend(choice.selected_tags.iter().cloned().map(Node::Tag));
         if !body_already_emitted {
@@ -80,8 +89,9 @@ fn emit_choice(
                 choice.body.as_slice(),
                 [Node::Divert(d)] if d.target == "END" || d.target == "DONE"
             );
-            let body_is_inline_divert = matches!(choice.body.as_slice(), [Node::Divert(_)])
-                && selected_text.ends_with(char::is_whitespace);
+            let body_is_inline_divert = inline_divert
+                || (matches!(choice.body.as_slice(), [Node::Divert(_)])
+                    && selected_text.ends_with(char::is_whitespace));
             if !body_is_terminal_divert && !body_is_inline_divert {
                 branch_nodes.push(Node::Newline);
             }
